@@ -411,6 +411,9 @@ func generate() {
 		}
 	}
 
+	// the callers layer: ptt.NewBoard on a .BRD with a vacated slot, .DIR.bottom behind the board cache.
+	generateCallers()
+
 	// 4. random histories.
 	nh, maxOps := 600, 28
 	if thorough {
